@@ -157,6 +157,7 @@ RunOut judge_case(mc::Case & c, const PSM & q, int mi, int pt, int ft, const Nod
       break;
     }
     if (kn > 0) beyond4 = true;
+    if (kn > 0 && getenv("C09_DEBUG")) fprintf(stderr, "DBG mode=%d k=%zu/%zu c0=%.17Lg c1=%.17Lg rel=%.3Lg kn=%.3g S=%.3g status=%d :: %s\n", q.mode, k, A.cost.size(), A.cost[k], A.cost[k+1], (A.cost[k+1]-A.cost[k])/A.cost[k]/EPS, kn, A.scale[k], A.status, c.desc().c_str());
     kworst = std::max(kworst, kn);
   }
   if (beyond4) c.outcome("a step's cost increase exceeded 4eps|f|^2 (explained by f rounding)");
@@ -263,7 +264,7 @@ MC_SUBCHECK(b_history)
     q  = hmenu[r.next(hmenu.size())];
   };
   for (int d = 0; d < maxdepth; ++d) {
-    const auto & fr = frontier[size_t(d)];
+    const std::vector<StratState> fr = frontier[size_t(d)];  // copy: `frontier` grows below
     std::vector<Res> res(fr.size() * nh);
     parallel_for(res.size(), [&](size_t i) {
       PSM q;
